@@ -1,9 +1,11 @@
 #!/usr/bin/env bash
-# tools/matrix_wt.sh [lanes]: every seeded change x every quick check, on scratch worktrees (tools/try_wt.sh),
+# tools/matrix_wt.sh [lanes] [own|all]: every seeded change x the quick check of its own property (own, default;
+# about half an hour) or x every quick check (all; several hours), on scratch worktrees (tools/try_wt.sh),
 # N lanes in parallel; writes seeded/MATRIX.json. Sanitizer lanes are skipped (VERIF_NO_LANES=1) except
-# for seeds named S* which exist to exercise them.
+# for seeds named S* which exist to exercise them. Scratch trees are kept between runs only while running.
 cd /verif
 N=${1:-4}
+MODE=${2:-own}
 ALL="C01 C02 C03 C04 C05 C06 C07 C08 C09 C10 C11 C12 C13 C14 C15 C16 C17 C18 C19 C20"
 rm -rf /tmp/mxres; mkdir -p /tmp/mxres
 seeds=($(ls seeded | grep -v MATRIX))
@@ -12,14 +14,15 @@ for k in $(seq 0 $((N-1))); do
     for i in "${!seeds[@]}"; do
       [ $((i % N)) -eq $k ] || continue
       s=${seeds[$i]}
-      case $s in S*) nl=0; ids="C13 C12";; *) nl=1; ids="$ALL";; esac
+      own=$(jq -r .property seeded/$s/meta.json)
+      case $s in S*) nl=0; ids="$own";; *) nl=1; if [ "$MODE" = all ]; then ids="$ALL"; else ids="$own"; fi;; esac
       MX=/tmp/mxl$k MATRIX_OUT=/tmp/mxres/$s.txt VERIF_NO_LANES=$nl tools/try_wt.sh seeded/$s/patch.diff $ids > /tmp/mxres/$s.log 2>&1
       echo "$s done: $(awk '$2==1{printf "%s ",$1}' /tmp/mxres/$s.txt)"
     done
   ) &
 done
 wait
-python3 - <<'P'
+MATRIX_MODE=$MODE python3 - <<'P'
 import json,os,glob
 m={}
 for f in sorted(glob.glob('/tmp/mxres/*.txt')):
@@ -34,7 +37,8 @@ for f in sorted(glob.glob('/tmp/mxres/*.txt')):
         elif rc!=0: inc.append(cid)
     meta=json.load(open(f'/verif/seeded/{s}/meta.json'))
     m[s]={'property':meta.get('property'),'caught_by':caught,'inconclusive':inc,'first_signature':sig,'summary':meta.get('summary','')[:300]}
-json.dump(m,open('/verif/seeded/MATRIX.json','w'),indent=1)
+import sys
+json.dump({'mode': os.environ.get('MATRIX_MODE','own'), 'seeds': m},open('/verif/seeded/MATRIX.json','w'),indent=1)
 missed=[s for s,v in m.items() if v['property'] not in v['caught_by']]
 print('seeds',len(m),'not caught by own check:',missed)
 P
